@@ -330,7 +330,7 @@ func c14Purity(c *eng.Ctx, r *eng.Report) {
 func c14LeftPad(c *eng.Ctx, r *eng.Report) { c14LeftPadAs(c, r, "R14.5") }
 
 func c14LeftPadAs(c *eng.Ctx, r *eng.Report, rule string) {
-	r.Min(rule, 3)
+	r.Min(rule, 2)
 	derivesFromBigBytes := func(v ssa.Value) bool {
 		seen := map[ssa.Value]bool{}
 		var walk func(v ssa.Value, d int) bool
